@@ -1,6 +1,7 @@
 import Drv.Common
 import Drv.Args
 import Drv.Store
+import Drv.Pipeline
 open Lean
 
 def handle (line : String) : String :=
@@ -15,6 +16,7 @@ def handle (line : String) : String :=
       | "overlap" => Drv.opOverlap j
       | "storeops" => Drv.opStoreOps j
       | "cacheopt" => Drv.opCacheOpt j
+      | "history" => Drv.opHistory j
       | "argctx" => Drv.opArgCtx j
       | "leafsig" => Drv.opLeafSig j
       | _ => .error s!"unknown op {op}"
